@@ -30,6 +30,15 @@ CLAIMED = {
     note='Float sums are modelled as the correctly rounded exact sum; generators keep float data dyadic so every partial sum is exact. '
          'Dates only for COUNT. Known findings: count_several_areas, fold_over_no_numeric_cell_raises, count_ignores_expression_args.',
     technique='Coq proof (list induction) + vm_compute correspondence', ref='6/C11'),
+ 'C17': dict(
+    text='Unbounded Coq theorems over a Gallina model of _left/_right/_mid (Python slicing semantics): LEFT = first n, RIGHT = last n, '
+         'MID = n characters from k (shorter at the end), error values for negative counts / k<1, LEFT(t,n)&MID(t,n+1,len) = t for all t and '
+         '0<=n<len. SEARCH: kernel-exhaustive theorem over all find texts of length <=3 over {a,B,?,*,~,.} x 6 texts x 4 starts against an '
+         'independent wildcard matcher, with exact defect classes; the model runs the source regex strings through a Gallina regex engine. '
+         '&/CONCATENATE/VALUE by correspondence with an executable spec.',
+    note='ASCII only. SEARCH theorem is bounded (stated in the theorem). repr(float) oracle; strptime ladder of VALUE not modelled; the regex '
+         'engine is validated against Python re by a differential test. Known findings: empty_text_is_blank, search_* (4 classes), *_text_form (3).',
+    technique='Coq proof (lists, lia) + kernel-exhaustive vm_compute sweep + vm_compute correspondence', ref='6/C17'),
 }
 
 ids = [json.loads(l)['id'] for l in open('/verif/properties.jsonl')]
